@@ -46,15 +46,20 @@ example : walk exFS 0 exFS.fuel ≠ .error .fuel := walk_fuel exFS 0 (by decide)
 /-- the bound is attained (one unit less and the model does run out), so the theorem is not about a slack bound -/
 example : (match walk exCycle 0 (exCycle.fuel - 1) with | .error .fuel => true | _ => false) = true := by decide
 
-/-- … and it returns normally unless some wanted name is a self-referential link, for which
-`Path.resolve()` raises `RuntimeError` in CPython ≤ 3.12 (`Kind.loop`). -/
-theorem walk_ok (fs : FS κ) (root : κ) (hroot : fs.inJail root = true)
-    (hloop : ∀ c, raises (fs.entries c) = false) : ∃ res, walk fs root fs.fuel = .ok res := by
+/-- … and it returns normally, for every file system: a wanted name that is a self-referential link
+(`Kind.loop`; `Path.resolve()` raises `RuntimeError`/`OSError`) is skipped by the `except` clause of the repaired
+`get_files` (71ff38c), so nothing a listing can contain makes the scan raise. -/
+theorem walk_ok (fs : FS κ) (root : κ) (hroot : fs.inJail root = true) :
+    ∃ res, walk fs root fs.fuel = .ok res := by
   have h1 := walk_fuel fs root hroot fs.fuel (Nat.le_refl _)
-  have h2 : walk fs root fs.fuel ≠ .error .runtimeError := loop_no_raise fs hloop _ _ _
   cases h : walk fs root fs.fuel with
   | ok res => exact ⟨res, rfl⟩
-  | error e => cases e <;> simp_all
+  | error e => cases e; simp_all
+
+/-- a wanted self-referential link next to a wanted file: skipped, the file is still yielded -/
+example : (match walk ({ dirs := [(0, [⟨"k.txt", .loop, true⟩, ⟨"x.txt", .file 10, true⟩])],
+                         inJail := fun _ => true, hasToml := fun _ => false } : FS Nat) 0 1 with
+           | .ok st => st.out | _ => []) = [(["x.txt"], 10)] := by decide
 
 example : (match walk exFS 0 exFS.fuel with | .ok st => st.out | _ => []) =
     [(["x.txt"], 10), (["d.txt"], 14), (["alias", "y.txt"], 11), (["l", "x.txt"], 10), (["l", "d.txt"], 14)] := by decide
@@ -166,13 +171,7 @@ theorem coverage (fs : FS κ) (root : κ) (hroot : fs.inJail root = true) (fuel 
 
 /-- `y.txt` (canonical id 11) lives in directory `1`, which is only entered through the alias link -/
 example : ∃ q, (q, 11) ∈ (match walk exFS 0 exFS.fuel with | .ok st => st.out | _ => []) := by
-  obtain ⟨res, hres⟩ := walk_ok exFS 0 (by decide) (by
-    intro c
-    by_cases h0 : c = 0; · subst h0; decide
-    by_cases h1 : c = 1; · subst h1; decide
-    by_cases h3 : c = 3; · subst h3; decide
-    by_cases h5 : c = 5; · subst h5; decide
-    simp [FS.entries, exFS, lookupDir, raises, Ne.symm h0, Ne.symm h1, Ne.symm h3, Ne.symm h5])
+  obtain ⟨res, hres⟩ := walk_ok exFS 0 (by decide)
   have hcl : Clean exFS 0 ([] ++ ["a"]) 1 :=
     Clean.step (e := ⟨"a", .dir 1, false⟩) Clean.root (by decide) rfl (by decide) (by decide)
   obtain ⟨q, hq⟩ := coverage exFS 0 (by decide) _ res hres _ 1 hcl ⟨"y.txt", .file 11, true⟩ (by decide) 11
